@@ -28,4 +28,10 @@ void ied_sc_mul(uint8_t s[32], const uint8_t a[32], const uint8_t b[32]);
 void ied_sc_invert(uint8_t s[32], const uint8_t a[32]);
 void ied_from_uniform(uint8_t s[32], const uint8_t r[32]);
 void ied_from_hash(uint8_t s[32], const uint8_t h[64]);
+/* Ristretto255 layer */
+int  ied_ris_decode_ok(const uint8_t s[32]);
+void ied_ris_addsub_bytes(uint8_t out[32], const uint8_t p_enc[32], const uint8_t q_enc[32], int sub);
+void ied_ris_scalarmult_bytes(uint8_t out[32], const uint8_t t[32], const uint8_t p_enc[32]);
+void ied_ris_base_mult_bytes(uint8_t out[32], const uint8_t t[32]);
+void ied_ris_from_hash(uint8_t s[32], const uint8_t h[64]);
 #endif
